@@ -156,7 +156,39 @@ def check_from_string(case):
     return OK(len(minimal) < len({tuple(p) for p in perms}) or len(perms) >= 2, "from_string")
 
 
-CHECKS = {"basis": check_basis, "from_string": check_from_string}
+def check_identity_stress(case):
+    """Equal bases denote the same class object however many other classes the process has
+    created in between (the first object is held all along)."""
+    perms, n_other = [tuple(p) for p in case["perms"]], case["others"]
+    Av.clear_cache()
+    held = Av([Perm(p) for p in perms])
+    held.count(4)
+    made = 0
+    for length in range(5, 9):
+        for t in ref.perms(length):
+            if made >= n_other:
+                break
+            if t in perms:
+                continue
+            Av(Basis(Perm(t)))
+            made += 1
+        if made >= n_other:
+            break
+    spellings = {
+        "list": lambda: Av([Perm(p) for p in perms]),
+        "reversed_with_repeat": lambda: Av([Perm(p) for p in reversed(perms)] + [Perm(perms[0])]),
+        "basis": lambda: Av(Basis(*[Perm(p) for p in perms])),
+        "from_iterable": lambda: Av.from_iterable(iter([Perm(p) for p in perms])),
+        "from_string": lambda: Av.from_string("_".join("".join(str(v + 1) for v in p) for p in perms)),
+    }
+    for name, make in spellings.items():
+        again = make()
+        if again is not held:
+            return BAD("class_identity_lost_after_other_classes", {"spelling": name, "other_classes_created": made, "held_levels": len(held.cache), "new_levels": len(again.cache)})
+    return OK(made >= 100, f"identity_after_{n_other}")
+
+
+CHECKS = {"basis": check_basis, "from_string": check_from_string, "identity_stress": check_identity_stress}
 
 
 # ------------------------------------------------------------------ generators
@@ -278,7 +310,18 @@ def shard_generated(acc, shard, nshards, n_basis, n_str):
     engine.hyp_run(acc, "from_string", check_from_string, string_cases(), n_str, shard)
 
 
+def shard_identity(acc, shard, nshards, counts):
+    bases = [[[0, 2, 1]], [[0, 1, 2], [2, 1, 0, 3]], [[1, 3, 0, 2], [2, 0, 3, 1]], [[0, 1]]]
+    i = 0
+    for b in bases:
+        for n in counts:
+            if i % nshards == shard:
+                acc.record("identity_stress", check_identity_stress, {"perms": b, "others": n})
+            i += 1
+
+
 def run(acc, tier):
+    engine.pmap(acc, shard_identity, extra=((50, 1500, 5000) if tier == "quick" else (50, 1500, 5000, 45000),))
     if tier == "quick":
         engine.pmap(acc, shard_small_classical, extra=(3, 2))
         engine.pmap(acc, shard_small_mesh, extra=(3,))
